@@ -63,6 +63,7 @@ type Op struct {
 	From, To, Amt                       int64
 	Dt                                  int64 // nanoseconds
 	NameOverride, ResultOverride        string // malformed stream
+	P                                   *Cfg   `json:",omitempty"` // setparams: the parameter set proposed (governance parameter change)
 	OK                                  bool   // ValidateBasic passed (filled at execution)
 	Note                                string
 }
@@ -220,6 +221,9 @@ func (o *Op) line() string {
 		return fmt.Sprintf("transfer %d %d %d", o.From, o.To, o.Amt)
 	case "endblock":
 		return fmt.Sprintf("endblock %d", o.Dt)
+	case "setparams": // governance parameter change: max_timeout multiple min_deposit tax slash arb compl (rates scaled by 10^18, durations in ns)
+		c := o.P
+		return fmt.Sprintf("setparams %d %d %d %s %s %d %d", c.MaxTimeout, c.Multiple, c.MinDeposit, scaled(c.Tax), scaled(c.Slash), int64(c.Arb), int64(c.Compl))
 	case "query", "export":
 		return o.Kind
 	}
@@ -331,7 +335,7 @@ func (o *Op) isModOp() bool {
 
 // signer of a message op (the account the SDK would debit fees from and whose
 // signature it checks); used by the authority monitor. Keeper-API ops (modcall, modupd,
-// modpause, modstart, modkill) carry no signature: 0.
+// modpause, modstart, modkill) and the governance parameter change (setparams) carry no signature: 0.
 func (o *Op) signer() int64 {
 	switch o.Kind {
 	case "define", "bind", "update", "disable", "enable", "refunddep", "setwd", "withdraw":
